@@ -349,6 +349,8 @@ impl Timestamp {
             .duration_since(SystemTime::UNIX_EPOCH)
             .expect("system time before UNIX epoch")
             .as_micros() as u64;
+        #[cfg(feature = "verif-hooks")]
+        let micros = crate::verif_hooks::clock::override_micros().unwrap_or(micros);
         // Ensure strictly monotonic: if the clock went backward or two calls
         // land in the same microsecond, we increment from the last value.
         let mut last = LAST_TIMESTAMP.load(Ordering::Relaxed);
